@@ -50,6 +50,7 @@ def families(tier):
     ok("ring3_split", 0, 4)
     ok("ring2_pull", 3, 4)
     ok("ring2_tail_in", 3, 4)
+    ok("ring2_pull_delay_after", 3, 4)
     bad("ring2", 4, 6)
     bad("ring2", 4, 6, strict=True)
     bad("ring2_scale", 0, 6)
